@@ -185,7 +185,7 @@ def _mk_multi(n):
     def body(xs):
         try:
             from harness.C01 import TAGS
-            sts = [MULTI_STATUSES[concrete(x)] for x in xs[:n]]      # table lookup by symbolic index: enumerated by the engine
+            sts = [MULTI_STATUSES[x] for x in xs[:n]]      # table lookup by symbolic index: enumerated by the engine
             state = {"i": 0}
 
             def hook(svc, segs, data, tr):
@@ -224,6 +224,7 @@ def _mk_multi(n):
 MULTI_STATUSES = [0, 0x04, 0x05, 0x13, 0xFF, 0x2A]
 for n in (2, 3):
     REG.add(f"multi-service/status-vector{n}", vec_fn(n, _mk_multi(n)), pre=vec_pre(n, lambda xs: all(0 <= x < len(MULTI_STATUSES) for x in xs)), timeout=900, funcs=F, weight=3,
+            tier="quick" if n == 2 else "thorough",
             desc=f"{n} reads in one multi-service packet; the controller answers service i with status s_i, each a symbolic choice of {[hex(x) for x in MULTI_STATUSES]} (0 = success): "
                  "per-service isolation and error texts")
 
